@@ -1,6 +1,6 @@
 """C01: every TwoFloat comes into being at a validity-establishing or validity-preserving
 constructor form (inductive constructor discipline)."""
-import math
+import math, re
 from . import vg, helpers as H, facts as F, oracle, refs
 from .helpers import P, TF
 from .terms import mk, tag, all_nodes, Node
@@ -123,6 +123,14 @@ def check_cfg(ctx, rep, f, cfg):
     counts = {}
     total_sites = 0
     pol0 = vg.Policy(f, "none")
+    # private classification helpers (return a bool / integer / field-less enum, build no TwoFloat) are read
+    # in the context of their callers, so that a case split moved into a helper still dominates the site
+    helpers = set()
+    for b in f.live:
+        if not b.reachable and b.kind != "Closure" and b.trait is None and not raw_sites(b) and b.ident() != "fn:no_overlap" \
+                and "TwoFloat" not in b.output and "f64" not in b.output and not pol0.has_loop_or_recursion(b):
+            helpers.add(b.ident())
+    rep.analysed["classification_helpers" + sfx] = sorted(helpers)
     for b in f.live:
         sites = raw_sites(b)
         if not sites:
@@ -135,7 +143,7 @@ def check_cfg(ctx, rep, f, cfg):
             continue
         try:
             try:
-                t = H.tree_of(f, b, "none")
+                t = H.tree_of(f, b, "none", inline_extra=helpers)
             except vg.Unsupported:
                 # bodies with loops (powi): over-approximate the loop, the aggregate sites stay visible
                 ex = vg.Exec(f, vg.Policy(f, "none"), loops="havoc")
@@ -260,6 +268,10 @@ def ok_source(v):
     if t == "call":
         n = v[1]
         if n.startswith("op:") or n.startswith("TwoFloat::") or n.startswith("fn:") or n.startswith("<"):
+            return True
+        if re.match(r"^core::ops::\w+::\w+<TwoFloat,", n):
+            # an operator on TwoFloat not resolved inside a private generic helper: every impl is either one of
+            # the crate's (classified itself) or a downstream one, which can only use the public constructors
             return True
         return any(n.startswith(x) for x in FOREIGN_OK)
     if t == "field":
